@@ -84,6 +84,10 @@ func (m ProtobufMarshaler) newUUID() string {
 func (m ProtobufMarshaler) Unmarshal(msg *message.Message, v interface{}) (err error) {
 	protoV, ok := v.(proto.Message)
 	if !ok {
+		if !m.DisableStdProtoFallback {
+			// Marshal falls back to ProtoMarshaler for such values, so Unmarshal has to as well
+			return m.ToProtoMarshaler().Unmarshal(msg, v)
+		}
 		return errors.WithStack(NoProtoMessageError{v})
 	}
 
